@@ -789,6 +789,226 @@ func runDest(s *Stream) {
 	mu.Unlock()
 }
 
+// ---------------------------------------------------------------- several destinations on an aggregated stream
+
+// wsSink is a websocket server of the harness that records what it receives.
+type wsSink struct {
+	srv       *httptest.Server
+	mu        sync.Mutex
+	msgs      [][]byte
+	text      []bool
+	last      time.Time
+	connected chan struct{}
+}
+
+func newWsSink() *wsSink {
+	k := &wsSink{connected: make(chan struct{}, 64), last: time.Now()}
+	up := websocket.Upgrader{CheckOrigin: func(*http.Request) bool { return true }}
+	k.srv = httptest.NewServer(http.HandlerFunc(func(w http.ResponseWriter, r *http.Request) {
+		c, err := up.Upgrade(w, r, nil)
+		if err != nil {
+			return
+		}
+		k.connected <- struct{}{}
+		for {
+			mt, d, err := c.ReadMessage()
+			if err != nil {
+				c.Close()
+				return
+			}
+			k.mu.Lock()
+			k.msgs = append(k.msgs, d)
+			k.text = append(k.text, mt == websocket.TextMessage)
+			k.last = time.Now()
+			k.mu.Unlock()
+		}
+	}))
+	return k
+}
+
+func (k *wsSink) url(path string) string { return "ws" + strings.TrimPrefix(k.srv.URL, "http") + path }
+func (k *wsSink) count() int {
+	k.mu.Lock()
+	defer k.mu.Unlock()
+	return len(k.msgs)
+}
+
+func runAgg(s *Stream) {
+	o := &Observed{}
+	s.Obs = o
+	h := newHost()
+	stream := "stream/" + s.Name
+	feeds := []string{}
+	for i := 0; i < s.Feeds; i++ {
+		feeds = append(feeds, fmt.Sprintf("feed%d-%s", i, s.Name))
+	}
+	type dest struct {
+		sink *wsSink
+		cl   *hub.Client
+		mu   sync.Mutex
+		got  [][]byte
+	}
+	dests := make([]*dest, len(s.DestKinds))
+	count := func(d *dest) int {
+		if d.sink != nil {
+			return d.sink.count()
+		}
+		d.mu.Lock()
+		defer d.mu.Unlock()
+		return len(d.got)
+	}
+	stop := make(chan struct{})
+	defer close(stop)
+	addDests := func() bool {
+		for i, kind := range s.DestKinds {
+			d := &dest{}
+			dests[i] = d
+			if kind == "rwc" {
+				d.sink = newWsSink()
+				h.app.Websocket.Add <- rwc.Rule{ID: "d" + strconv.Itoa(i), Stream: stream, Destination: d.sink.url("/in/" + strconv.Itoa(i))}
+				select {
+				case <-d.sink.connected:
+				case <-time.After(3 * time.Second):
+					o.Err = "the host did not connect to destination " + strconv.Itoa(i) + " within 3 s"
+					return false
+				}
+				continue
+			}
+			d.cl = &hub.Client{Hub: h.app.Hub.Hub, Name: "verif-dest-" + strconv.Itoa(i), Topic: stream, Send: make(chan hub.Message, 4096), Stats: hub.NewClientStats()}
+			h.app.Hub.Register <- d.cl
+			go func(d *dest) {
+				for {
+					select {
+					case m := <-d.cl.Send:
+						d.mu.Lock()
+						d.got = append(d.got, append([]byte{}, m.Data...))
+						d.mu.Unlock()
+					case <-stop:
+						return
+					}
+				}
+			}(d)
+		}
+		return true
+	}
+	settle := func() {
+		h.app.Websocket.Add <- rwc.Rule{ID: "deleteAll"} // taken and dropped by the rwc loop once it is idle
+		h.app.Hub.Add <- agg.Rule{Stream: "deleteAll"}   // same for the agg loop
+		h.barrier()
+		time.Sleep(2 * time.Millisecond)
+	}
+	rule := func(fs []string) { h.app.Hub.Add <- agg.Rule{Stream: stream, Feeds: fs}; settle() }
+	switch s.Order {
+	case "dest-first":
+		if !addDests() {
+			return
+		}
+		settle()
+		rule(feeds)
+	case "resubmit":
+		rule(feeds)
+		if !addDests() {
+			return
+		}
+		settle()
+		rule(feeds)
+	case "replace":
+		rule(feeds[:1])
+		if !addDests() {
+			return
+		}
+		settle()
+		rule(feeds)
+	default: // rule-first
+		rule(feeds)
+		if !addDests() {
+			return
+		}
+		settle()
+	}
+	input := s.wsoutInput()
+	for k := 0; k < s.Count; k++ {
+		feed := feeds[k%len(feeds)]
+		inj := hub.Client{Name: "verif-inj", Topic: feed}
+		h.app.Hub.Broadcast <- hub.Message{Sender: inj, Data: input[k*s.Blk : (k+1)*s.Blk], Type: websocket.BinaryMessage, Sent: time.Now()}
+		// one message at a time: wait until the destinations have it (or clearly will not get it)
+		start := time.Now()
+		for time.Since(start) < 25*time.Millisecond {
+			all := true
+			for _, d := range dests {
+				if count(d) < k+1 {
+					all = false
+				}
+			}
+			if all {
+				break
+			}
+			time.Sleep(100 * time.Microsecond)
+		}
+	}
+	o.Posted = s.total()
+	time.Sleep(60 * time.Millisecond)
+	for _, d := range dests {
+		if d.sink != nil {
+			d.sink.mu.Lock()
+			o.PerDest = append(o.PerDest, append([][]byte{}, d.sink.msgs...))
+			d.sink.mu.Unlock()
+			d.sink.srv.Close()
+		} else {
+			d.mu.Lock()
+			o.PerDest = append(o.PerDest, append([][]byte{}, d.got...))
+			d.mu.Unlock()
+		}
+	}
+}
+
+// ---------------------------------------------------------------- typed websocket messages through a destination rule
+
+func runText(s *Stream) {
+	o := &Observed{}
+	s.Obs = o
+	h := newHost()
+	feed := "feed-" + s.Name
+	sink := newWsSink()
+	defer sink.srv.Close()
+	h.app.Websocket.Add <- rwc.Rule{ID: "t0", Stream: feed, Destination: sink.url("/in/" + feed)}
+	select {
+	case <-sink.connected:
+	case <-time.After(3 * time.Second):
+		o.Err = "the host did not connect to the destination within 3 s"
+		return
+	}
+	c, _, err := websocket.DefaultDialer.Dial("ws://"+h.base+"/ws/"+feed, nil)
+	if err != nil {
+		o.Err = "dial: " + err.Error()
+		return
+	}
+	defer c.Close()
+	time.Sleep(5 * time.Millisecond)
+	h.barrier()
+	for _, m := range s.Msgs {
+		mt := websocket.BinaryMessage
+		if m.Text {
+			mt = websocket.TextMessage
+		}
+		before := sink.count()
+		if err := c.WriteMessage(mt, m.Data); err != nil {
+			o.Err = "write: " + err.Error()
+			return
+		}
+		start := time.Now()
+		for time.Since(start) < 300*time.Millisecond && sink.count() == before {
+			time.Sleep(200 * time.Microsecond)
+		}
+		o.Posted += len(m.Data)
+	}
+	time.Sleep(30 * time.Millisecond)
+	sink.mu.Lock()
+	o.Frames = append([][]byte{}, sink.msgs...)
+	o.RecvText = append([]bool{}, sink.text...)
+	sink.mu.Unlock()
+}
+
 func runStream(s *Stream) {
 	defer func() {
 		if r := recover(); r != nil && s.Obs != nil {
@@ -806,5 +1026,9 @@ func runStream(s *Stream) {
 		runWsOut(s)
 	case "dest":
 		runDest(s)
+	case "agg":
+		runAgg(s)
+	case "wstext":
+		runText(s)
 	}
 }
